@@ -47,6 +47,12 @@ def build_doc(case):
                     if t != base["text"] and all(t != s["text"] for s in secrets):
                         twin = dict(base, text=t, cores=[t], sub="case-twin")
                         break
+        if twin is None and c == "text" and rng.random() < 0.12:
+            t = "netconanRemoved%d" % rng.randint(0, 6)
+            if all(t != s["text"] for s in secrets):
+                twin = {"cls": "text", "text": t, "cores": [], "sub": "replacement-shaped"}
+        if twin is None and c == "j9":
+            twin = S.gen_secret(rng, "j9", plain_class=rng.choice([None, None, "numeric", "hex"]))
         secrets.append(twin or S.gen_secret(rng, c, plain_alpha=True))
     lines = []
     for _ in range(case["nlines"]):
@@ -59,9 +65,10 @@ def build_doc(case):
             for k, j in enumerate(ids):
                 c = cls[k]
                 # a $9$ secret may also occur as clear text of its plaintext ("same secret")
-                if c == "j9" and rng.random() < 0.25 and "text" in f["classes"]:
+                pc = secrets[j].get("plain_class", "text") if c == "j9" else None
+                if c == "j9" and rng.random() < (0.25 if pc == "text" else 0.5) and pc in f["classes"]:
                     use_plain[k] = True
-                    c = "text"
+                    c = pc
                 if c not in f["classes"]:
                     ok = False
             if not ok:
@@ -145,7 +152,7 @@ def check_case(ctx, case):
         groups = list(m.groups())
         for k, (p, rep) in enumerate(zip(slot_parts, groups)):
             sid = ln["ids"][p[1]]
-            if rep == p[3]:
+            if rep == p[3] and secrets[sid].get("sub") != "replacement-shaped":
                 ctx.count("slot_not_replaced_skipped")  # recognition is C07's oracle
                 continue
             cls = idcls[sid]
